@@ -106,16 +106,19 @@ def n_candidates(cand, yid):
 
 @st.composite
 def pool_case(draw, names, allow_feat=True, max_n=None, force_cand=None,
-              encodings=("float_nan",), batch_sizes=None, min_unlabeled=1):
+              encodings=("float_nan",), batch_sizes=None, min_unlabeled=1,
+              fixed=None):
     name = draw(st.sampled_from(names))
     ent = poolreg.base_entry(name)
+    fixed = fixed or {}
     task = ent["task"]
     if task == "any":
-        task = draw(st.sampled_from(["clf", "clf", "reg"]))
-    K = draw(st.sampled_from(list(ent["K"])))
+        task = fixed.get("task") or draw(st.sampled_from(
+            ["clf", "clf", "reg"]))
+    K = fixed.get("K") or draw(st.sampled_from(list(ent["K"])))
     hi = min(ent["max_n"], max_n or ent["max_n"])
     n = draw(st.integers(max(ent["min_n"], 2), hi))
-    d = draw(st.integers(1, 3))
+    d = fixed.get("d") or draw(st.integers(1, 3))
     X, regime = draw(feature_matrix(n, d))
     yid, _ = draw(label_pattern(n, K, task, max_labeled=n - min_unlabeled))
     cand, cmode = draw(candidates(X, yid, ent, allow_feat=allow_feat,
